@@ -24,6 +24,8 @@ type pool3 struct {
 	mon  []MonitorFailure
 	hist []string
 	restarted bool
+	addedSinceRestart map[bool]bool // an order was added on that side since the last restart (it sits in memory, unsorted)
+	bookBroken bool // a live order is missing from the book: the rest of this history is not compared with the model
 	trades, fills, refunds, partial int
 	filled bool
 	disk   map[uint32]bool // ids committed to the tree
@@ -60,7 +62,13 @@ func (p *pool3) checkBook(dir bool, m map[uint32][2]*big.Int) {
 			key := "c14-book-missing"
 			if p.restarted {
 				key = "c14-book-missing-after-restart"
+				if p.addedSinceRestart[dir] {
+					// the variant left open by fix c8ee687: an order added after the restart is placed into the still
+					// empty in-memory list before the committed orders of that side are loaded
+					key = "c14-book-missing-after-restart-and-new-order"
+				}
 			}
+			p.bookBroken = true
 			p.mon = append(p.mon, MonitorFailure{What: fmt.Sprintf("C14: live order %d (buy %s sell %s) is not offered by the book of its side", id, v[1], v[2]), Key: key, Replay: joinLines(p.hist)})
 		}
 	}
@@ -95,6 +103,7 @@ func (p *pool3) commit() {
 
 func (p *pool3) restart() {
 	p.restarted = true
+	p.addedSinceRestart = map[bool]bool{}
 	t, err := tree.NewMutableTree(p.ver, p.mem, 1024, 0)
 	if err != nil {
 		panic(err)
@@ -241,6 +250,12 @@ func (p *pool3) exec1(op []*big.Int, dirOf func(*big.Int) bool) []*big.Int {
 				id, _ = p.s.PairAddOrder(1, 0, cp(op[2]), cp(op[3]), ownerAddr(op[4].Int64()), op[5].Uint64())
 			}
 			p.live[id] = [3]*big.Int{cp(op[1]), cp(op[2]), cp(op[3])}
+			if p.restarted {
+				if p.addedSinceRestart == nil {
+					p.addedSinceRestart = map[bool]bool{}
+				}
+				p.addedSinceRestart[dir] = true
+			}
 			return L(Z(int64(id)))
 		})
 	case 2, 3:
@@ -340,7 +355,11 @@ func runPool3(seed uint64, n int, out, stats string, args []string) {
 		p := newPool3()
 		c.Begin(3)
 		for _, op := range readOps(f) {
-			c.Op(op, p.exec(op))
+			v := p.exec(op)
+			if p.bookBroken {
+				break // reported by the monitor; the model would only repeat it
+			}
+			c.Op(op, v)
 		}
 		finish(p, true, "corpus")
 	}
@@ -348,7 +367,13 @@ func runPool3(seed uint64, n int, out, stats string, args []string) {
 		p := newPool3()
 		c.Begin(3)
 		do := func(op []*big.Int) []*big.Int {
+			if p.bookBroken {
+				return nil
+			}
 			v := p.exec(op)
+			if p.bookBroken {
+				return v // reported by the monitor; the rest of the history is not compared with the model
+			}
 			c.Op(op, v)
 			return v
 		}
